@@ -1162,6 +1162,32 @@ func (store *KeyStore) generateAndSaveSymmetricKey(filename string, keyContext k
 	return store.WritePrivateKey(filename, encryptedSymKey)
 }
 
+// generateAndCacheSymmetricKey generates symmetric key with given name in the private key folder
+// and replaces previous (or destroyed) key in the cache, as other key generators do
+func (store *KeyStore) generateAndCacheSymmetricKey(keyName string, keyContext keystore.KeyContext) error {
+	symKey, err := keystore.GenerateSymmetricKey()
+	if err != nil {
+		return err
+	}
+
+	encryptedSymKey, err := store.encryptor.Encrypt(store.encryptorCtx, symKey, keyContext)
+	if err != nil {
+		return err
+	}
+
+	cacheEncryptedKey, err := store.cacheEncryptor.Encrypt(store.encryptorCtx, symKey, keyContext)
+	if err != nil {
+		return err
+	}
+
+	err = store.WritePrivateKey(store.GetPrivateKeyFilePath(keyName), encryptedSymKey)
+	if err != nil {
+		return err
+	}
+	store.Add(keyName, cacheEncryptedKey)
+	return nil
+}
+
 // GetSymmetricKey return symmetric key with specific identifier
 func (store *KeyStore) readEncryptedKey(filename string, keyContext keystore.KeyContext) ([]byte, error) {
 	encryptedSymKey, ok := store.Get(filename)
@@ -1199,16 +1225,15 @@ func (store *KeyStore) GenerateClientIDSymmetricKey(id []byte) error {
 	keyName := getClientIDSymmetricKeyName(id)
 
 	keyContext := keystore.NewClientIDKeyContext(keystore.PurposeStorageClientSymmetricKey, id)
-	return store.generateAndSaveSymmetricKey(store.GetPrivateKeyFilePath(keyName), keyContext)
+	return store.generateAndCacheSymmetricKey(keyName, keyContext)
 }
 
 // GeneratePoisonSymmetricKey generate symmetric key for poison records
 func (store *KeyStore) GeneratePoisonSymmetricKey() error {
 	keyName := getSymmetricKeyName(PoisonKeyFilename)
-	keyPath := store.GetPrivateKeyFilePath(keyName)
 
 	keyContext := keystore.NewKeyContext(keystore.PurposePoisonRecordSymmetricKey, []byte(keyName))
-	return store.generateAndSaveSymmetricKey(keyPath, keyContext)
+	return store.generateAndCacheSymmetricKey(keyName, keyContext)
 }
 
 // GeneratePoisonKeyPair generates new poison keypair, saving it in the storage.
